@@ -166,6 +166,24 @@ def rule_memo_inventory(repo, res, rule):
                   'value computed under the guard may be kept and served to later queries (which query comes first decides)'
                   % (q, s['kind']), sample='%s: %s' % (q, TRIAGED_EVAL_MEMOS.get(q)))
     res.count('memo_sites_on_evaluation_cycles', len(on), floor=8)
+    # supporting fact of the triage of FuncObject.call ("a value computed under the guard dies with the request"): function objects
+    # are made per evaluation - none is created inside a memoised function or kept on an object that outlives the evaluation
+    memo_keys = {s['key'] for s in sites}
+    nfo = 0
+    for rel, tree in repo.trees.items():
+        for c in ast.walk(tree):
+            if isinstance(c, ast.Call) and unparse(c.func) == 'FuncObject':
+                nfo += 1
+                fi = facts.func_of(c)
+                stored = isinstance(getattr(c, '_parent', None), ast.Assign) and \
+                    any(isinstance(t, ast.Attribute) for t in c._parent.targets)
+                res.check(rule, 'FuncObject created in %s' % (fi.qual if fi else rel), fi is not None and fi.key not in memo_keys and not stored,
+                          rel, c.lineno, 'a FuncObject is created inside the memoised %s (or stored on an object): FuncObject.call memoises the '
+                          'value of the return expression, also when it was evaluated under the recursion guard of EvalCtx.evaluate (None for '
+                          'a function in a call cycle) - kept on the scope of a cached project module that truncated value is served to '
+                          'every later request; which request came first decides' % (fi.qual if fi else '?'),
+                          sample='FuncObject(...) in %s: created per evaluation' % (fi.qual if fi else '?'))
+    res.count('funcobject_constructions', nfo, floor=1)
     for memo, known in sorted(PARTIAL_MEMO_READERS.items()):
         key = [k for k, fi in facts.funcs.items() if fi.qual == memo]
         if not key:
